@@ -332,6 +332,6 @@ def run(tier, seed, replay=None):
            "model_states": res.distinct, "scenarios_in_model": total,
            "traces_replayed_into_impl": len(jobs) + n_oo, "agree_with_transcription": agree,
            "unusable": unusable, "optout_runs": n_oo, "samples": v.samples}
-    return v.finish("model checking + exploration", cov, [
+    return v.finish("model_checking", cov, [
         "verbatim = the target's bytes occur in the output as often as in the input (F.6)",
         "a scenario counts only if its deliberately mis-laid-out siblings were reformatted"])
